@@ -160,7 +160,7 @@ func RunHX(c HXCheck, tier string) int {
 			}
 			art := map[string]interface{}{"property": c.Prop, "scope": v.Scope, "tier": tier, "idx": v.Idx, "seed": v.Seed, "cfg": v.Cfg,
 				"program": v.Prog, "program_text": apix.ProgString(v.Prog), "fail": v.Fail, "notes": v.Notes, "reproduced": same,
-				"go_test": GoTest(v)}
+				"go_test": GoTest(v, tier)}
 			p := evid.Replay(c.Prop, art)
 			if same < 2 && v.Fail.Kind != "crash" {
 				fmt.Printf("UNSTABLE: property=%s failure did not reproduce identically (%d/2), not reported as violation: %s\n", c.Prop, same, p)
@@ -304,13 +304,187 @@ func RunProgram(pool *par.Pool, scope, tier string, idx int, prog []apix.Op) (*a
 	return out, notes
 }
 
-// GoTest renders a violation as a note on how to replay it without the explorer.
-func GoTest(v *hx.Violation) string {
+// GoTest renders a violation as a self-contained Go test over the public API only: it replays the seed program and
+// the failing program without any of this machinery and logs what every call returns and the final content, to be
+// compared with the expectation recorded in the replay file ("fail").
+func GoTest(v *hx.Violation, tier string) string {
 	var sb strings.Builder
-	fmt.Fprintf(&sb, "// replay: ./run replay <this file>\n// seed program %q, configuration %s, then:\n", v.Seed, v.Cfg.String())
-	for i, op := range v.Prog {
-		fmt.Fprintf(&sb, "//  %2d. %s\n", i, op.String())
+	lit := func(ops []apix.Op) {
+		for _, o := range ops {
+			fmt.Fprintf(&sb, "\t{K: %q, P: %#v, Key: %q, V: %q, N: %d, D: %#v},\n", o.K, o.P, o.Key, o.V, o.N, o.D)
+		}
 	}
+	fmt.Fprintf(&sb, `// Replay of a violation found by /verif (scope %s). Copy into the bbolt repository root and run:
+//   go test -run TestVerifReplay -v .
+// Expected divergence: %s
+package bbolt_test
+
+import (
+	"fmt"
+	"path/filepath"
+	"strings"
+	"testing"
+
+	bolt "go.etcd.io/bbolt"
+)
+
+type vop struct {
+	K   string
+	P   []string
+	Key string
+	V   string
+	N   int
+	D   []string
+}
+
+var vSeed = []vop{
+`, v.Scope, strings.ReplaceAll(v.Fail.Error(), "\n", " "))
+	lit(hx.Scopes(v.Scope, tier)[v.Idx].Seed.Prog)
+	sb.WriteString("}\n\nvar vProg = []vop{\n")
+	lit(v.Prog)
+	fmt.Fprintf(&sb, `}
+
+func TestVerifReplay(t *testing.T) {
+	ps := %d
+	opt := &bolt.Options{PageSize: ps, NoFreelistSync: %v, NoGrowSync: %v, InitialMmapSize: %d, FreelistType: bolt.FreelistType(%q)}
+	if opt.FreelistType == "" {
+		opt.FreelistType = bolt.FreelistArrayType
+	}
+	db, err := bolt.Open(filepath.Join(t.TempDir(), "db"), 0600, opt)
+	if err != nil {
+		t.Fatal(err)
+	}
+	defer db.Close()
+	stamp := 0
+	val := func(class string) []byte {
+		stamp++
+		st := fmt.Sprintf("%%s%%07d", class, stamp)
+		n := map[string]int{"e": 0, "s": len(st), "M": ps * 3 / 10, "X": ps * 5 / 2, "Y": ps*5 + 17}[class]
+		return []byte(strings.Repeat(st, n/len(st)+1))[:n]
+	}
+	key := func(k string) []byte {
+		if strings.HasPrefix(k, "L") && len(k) < ps/3 {
+			return []byte(k + strings.Repeat("_", ps/3-len(k)))
+		}
+		return []byte(k)
+	}
+	var tx *bolt.Tx
+	readers := map[int]*bolt.Tx{}
+	bucket := func(p []string) *bolt.Bucket {
+		var b *bolt.Bucket
+		for i, n := range p {
+			if i == 0 {
+				b = tx.Bucket(key(n))
+			} else if b != nil {
+				b = b.Bucket(key(n))
+			}
+		}
+		return b
+	}
+	run := func(ops []vop) {
+		for i, o := range ops {
+			var res interface{}
+			switch o.K {
+			case "beginW":
+				tx, err = db.Begin(true)
+				res = err
+			case "commit":
+				res = tx.Commit()
+			case "rollback":
+				res = tx.Rollback()
+			case "beginR":
+				readers[o.N], err = db.Begin(false)
+				res = err
+			case "closeR":
+				res = readers[o.N].Rollback()
+			case "reopen":
+				t.Log("reopen: close and open again with the options recorded in the replay file")
+			default:
+				b := bucket(o.P)
+				if len(o.P) > 0 && b == nil {
+					res = "no such bucket"
+					break
+				}
+				switch o.K {
+				case "put":
+					res = b.Put(key(o.Key), val(o.V))
+				case "del":
+					res = b.Delete(key(o.Key))
+				case "get":
+					res = fmt.Sprintf("%%d bytes", len(b.Get(key(o.Key))))
+				case "mkb":
+					if b == nil {
+						_, err = tx.CreateBucket(key(o.Key))
+					} else {
+						_, err = b.CreateBucket(key(o.Key))
+					}
+					res = err
+				case "mkbi":
+					if b == nil {
+						_, err = tx.CreateBucketIfNotExists(key(o.Key))
+					} else {
+						_, err = b.CreateBucketIfNotExists(key(o.Key))
+					}
+					res = err
+				case "delb":
+					if b == nil {
+						res = tx.DeleteBucket(key(o.Key))
+					} else {
+						res = b.DeleteBucket(key(o.Key))
+					}
+				case "mvb":
+					res = tx.MoveBucket(key(o.Key), b, bucket(o.D))
+				case "seqset":
+					res = b.SetSequence(uint64(o.N))
+				case "seqnext":
+					n, e := b.NextSequence()
+					res = fmt.Sprint(n, e)
+				case "fill":
+					for j := 0; j < o.N; j++ {
+						if e := b.Put(key(fmt.Sprintf("%%s%%03d", o.Key, j)), val(o.V)); e != nil {
+							res = e
+						}
+					}
+				case "drain":
+					var ks [][]byte
+					_ = b.ForEach(func(k, v []byte) error {
+						if v != nil {
+							ks = append(ks, append([]byte{}, k...))
+						}
+						return nil
+					})
+					for _, k := range ks {
+						_ = b.Delete(k)
+					}
+				default:
+					res = "operation not replayable through the public API alone: " + o.K
+				}
+			}
+			t.Logf("%%2d %%-8s /%%s %%s -> %%v", i, o.K, strings.Join(o.P, "/"), o.Key, res)
+		}
+	}
+	run(vSeed)
+	run(vProg)
+	if tx != nil {
+		_ = tx.Rollback()
+	}
+	_ = db.View(func(rtx *bolt.Tx) error {
+		var dump func(b *bolt.Bucket, ind string)
+		dump = func(b *bolt.Bucket, ind string) {
+			_ = b.ForEach(func(k, v []byte) error {
+				if v == nil {
+					t.Logf("%%s%%.12q/ (seq %%d)", ind, k, b.Bucket(k).Sequence())
+					dump(b.Bucket(k), ind+"  ")
+				} else {
+					t.Logf("%%s%%.12q = %%d bytes", ind, k, len(v))
+				}
+				return nil
+			})
+		}
+		return rtx.ForEach(func(n []byte, b *bolt.Bucket) error { t.Logf("%%q/ (seq %%d)", n, b.Sequence()); dump(b, "  "); return nil })
+	})
+}
+`, v.Cfg.PageSize, v.Cfg.NoFreelistSync, v.Cfg.NoGrowSync, v.Cfg.InitialMmapSize, v.Cfg.Freelist)
 	return sb.String()
 }
 
